@@ -101,6 +101,53 @@ def outer(seed):
 result = outer(5)
 print(result)
 ''',
+    # conditional rebinding read twice (input analysis must look at every read of a name)
+    'shaped:body4': '''\
+def flow(cond, num):
+    acc = num + 1
+    if cond:
+        acc = num * 2
+        low = acc - 1
+    else:
+        low = 0
+    res = acc + low
+    return res
+
+
+print(flow(True, 5), flow(False, 5))
+''',
+    # one single-assignment variable per operator class, used as left and right operand of an
+    # operator of the same precedence (parenthesisation of inline)
+    'shaped:ops': '''\
+def calc(a, b, c, d):
+    pw = a ** b
+    r1 = pw ** c
+    r1b = c ** pw
+    cmp = a < b
+    r2 = cmp == d
+    r2b = d == cmp
+    sub = a - b
+    r3 = c - sub
+    r3b = sub - c
+    add = a + b
+    r4 = add * c
+    neg = -a
+    r5 = neg ** 2
+    tern = a if b else c
+    r6 = tern + 1
+    tup = a, b
+    r7 = tup[0]
+    orr = a or b
+    r8 = orr and c
+    nt = not a
+    r9 = nt == d
+    dv = a / b
+    r10 = c / dv
+    return r1, r1b, r2, r2b, r3, r3b, r4, r5, r6, r7, r8, r9, r10
+
+
+print(calc(2, 3, 2, True))
+''',
 }
 
 
